@@ -118,6 +118,37 @@ func c07Check(ctx *vfCtx, c c07Case) {
 		ctx.Unjudged("event does not parse: " + c07Short(err))
 		return
 	}
+	// a caller that has looked at the state before (a third of the cases): the typed accessors of the
+	// auth events were called and what they handed out was edited, as one does to build the next
+	// power-levels event - the events themselves are what they were
+	if len(c.Event)%3 == 1 {
+		ctx.Class("accessor-results-edited-by-the-caller")
+		if vfCatch(ctx, "C07/accessors", func() {
+			for _, p := range pdus {
+				if p.Type() == "m.room.power_levels" {
+					if pl, err := p.PowerLevels(); err == nil && pl != nil {
+						pl.Ban, pl.Kick, pl.Invite, pl.Redact, pl.StateDefault, pl.EventsDefault, pl.UsersDefault = -77, -77, -77, -77, -77, -77, 1000
+						for k := range pl.Users {
+							pl.Users[k] = 1000
+						}
+						if pl.Users != nil {
+							pl.Users["@mallory:evil.example"] = 1000
+						}
+						for k := range pl.Events {
+							pl.Events[k] = -77
+						}
+						for k := range pl.Notifications {
+							pl.Notifications[k] = -77
+						}
+					}
+				}
+				_, _ = p.Membership()
+				_, _ = p.JoinRule()
+			}
+		}) {
+			return
+		}
+	}
 	var aerr error
 	if vfCatch(ctx, "C07", func() {
 		provider, perr := NewAuthEvents(pdus)
@@ -869,7 +900,7 @@ func c07EnumGeneric(size, shard, nshards int, emit func(c07Case)) {
 			for _, sMem := range c07PrevMems {
 				for _, lvl := range []int64{49, 50, 51} {
 					for _, fed := range []string{"", "true", "false"} {
-						for _, sender := range []string{c07Alice, c07Bob, c07Creator, "@dan:d.example:8448", "@eve:[2001:db8::1]:8448"} {
+						for _, sender := range []string{c07Alice, c07Bob, c07Creator, "@dan:d.example:8448", "@eve:[2001:db8::1]:8448", "@mal:a.example:8448"} {
 							for _, hasPL := range []bool{true, false} {
 								idx++
 								if idx%nshards != shard || !c07Pick(idx, size) {
